@@ -299,9 +299,14 @@ def build_all(verbose=False, force=False):
 
 # ------------------------------------------------------------------ running both sides
 
+TIMEOUTS = []     # (executable, first case without a result, seconds) for every run of this check that had to be stopped
+
+
 def run_lines(exe, lines, timeout=900, env=None):
     """Feed case lines to an executable, return {id: result string}.  On a timeout (a case on which the program under test does
     not terminate) the results printed so far are kept and the note names the first case without a result."""
+    if any(t[0] == os.path.basename(exe) == "spgdrive" for t in TIMEOUTS):
+        return {}, "not run: the implementation already failed to terminate on an earlier case of this check"
     data = "\n".join(lines) + "\n"
     timed_out = None
     try:
@@ -325,6 +330,8 @@ def run_lines(exe, lines, timeout=900, env=None):
     note = ""
     if timed_out is not None:
         missing = [l.split(" ", 1)[0] for l in lines if l.split(" ", 1)[0] not in res]
+        if missing:
+            TIMEOUTS.append((os.path.basename(exe), next(l for l in lines if l.startswith(missing[0] + " ")).split(" ", 1)[1], timed_out))
         note = "timeout after %d s; %d of %d cases have no result, the first being %s" % (timed_out, len(missing), len(lines), (missing[0] + ": " + next(
             l for l in lines if l.startswith(missing[0] + " "))[:300]) if missing else "-")
     elif rc != 0:
@@ -705,6 +712,7 @@ def run_check(prop, mod, tier, seed):
     t0 = time.time()
     build = build_all()
     del MODEL_LINES[:]
+    del TIMEOUTS[:]
     scratch = tempfile.mkdtemp(prefix="verif-%s-" % prop)
     try:
         ctx = Ctx(prop, tier, seed, build, scratch)
@@ -756,12 +764,17 @@ def run_check(prop, mod, tier, seed):
                 fams = sorted(set(m["family"] for m in ctx.mismatches))
                 broken.append({"what": "correspondence", "detail": "model and implementation disagree in families %s (%d cases)" % (fams, len(ctx.mismatches)),
                                "first": ctx.mismatches[0]})
-        if can_run and not getattr(mod, "NO_KERNEL_SAMPLE", False):
+        hung = [t for t in TIMEOUTS if t[0] == "spgdrive"]
+        if hung:
+            # the code under test did not finish on a case: that case is the failing input; nothing further is run on this tree
+            ctx.violations.append({"finding_key": prop + "-hang", "line": hung[0][1][:4000], "what": "the implementation did not finish within %d s on this case "
+                                   "(a call that does not terminate)" % hung[0][2]})
+        if can_run and not hung and not getattr(mod, "NO_KERNEL_SAMPLE", False):
             ks = kernel_sample(ctx, 30 if tier == "quick" else 200)
             ctx.kernel_sample = ks
             if not ks["ok"]:
                 broken.append({"what": "kernel-sample", "detail": "the kernel's evaluation of the model differs from the extracted program: " + ks.get("failure", "")[:600]})
-        if build.harness_ok:
+        if build.harness_ok and not hung:
             try:
                 mod.oracle(ctx, deep=bool(broken) or tier == "thorough")
             except Exception:
